@@ -17,6 +17,11 @@ func Router(node *cluster.ClusterNode, plans map[string]models.UserPlan) http.Ha
 	return httpapi.VerifSetupRouter(node, httpapi.HttpApiConfig{UserPlans: plans, WhiteListIPs: []string{"*"}})
 }
 
+// SecuredRouter is Router for a deployment behind a proxy: requests must carry the proxy secret.
+func SecuredRouter(node *cluster.ClusterNode, plans map[string]models.UserPlan, proxySecret string) http.Handler {
+	return httpapi.VerifSetupRouter(node, httpapi.HttpApiConfig{UserPlans: plans, WhiteListIPs: []string{"*"}, ProxySecret: proxySecret})
+}
+
 // Response of an in-process HTTP call.
 type Response struct {
 	Status int
